@@ -236,6 +236,9 @@ structure RCfg where
   attr : Nat → Bytes
   /-- `carriage_return_highlight` -/
   crh : Option Nat := none
+  /-- variant selected by probing the real code: a CR that follows a pending CR first resolves the
+  pending one as a lone CR (`fixes/C17-cr-cr-marker.diff`); `false` = the pending offset is overwritten -/
+  crcr : Bool := false
 
 /-- `start_highlight` output. -/
 def spanOpen (cfg : RCfg) (h : Nat) : Bytes := spanPre ++ cfg.attr h ++ [62]
@@ -294,10 +297,17 @@ def addPlain (st : RState) (c : Nat) : RState :=
   | some e => st.push e
   | none => st.push [c]
 
-/-- Body of the `for c in LossyUtf8::new(src).flat_map(|p| p.bytes())` loop of `add_text`;
-`hl` = the `highlights` stack, bottom first. -/
+/-- `if let Some(offset) = self.last_carriage_return.take() { self.add_carriage_return(offset, ..) }` -/
+def finishCR (cfg : RCfg) (st : RState) : RState :=
+  match st.lastCR with
+  | some off => addCR cfg { st with lastCR := none } off
+  | none => st
+
+/-- One byte of `add_text`: a CR is only remembered; any other byte first resolves a pending CR. -/
 def addByte (cfg : RCfg) (hl : List Nat) (st : RState) (c : Nat) : RState :=
-  if c = 13 then { st with lastCR := some st.rhtml.length }
+  if c = 13 then
+    let st0 := if cfg.crcr then finishCR cfg st else st
+    { st0 with lastCR := some st0.rhtml.length }
   else
     let st1 := resolveCR cfg st c
     if c = 10 then addNewline cfg hl st1 else addPlain st1 c
@@ -315,12 +325,6 @@ def renderEv (dec : Bytes → Bytes) (cfg : RCfg) (src : Bytes) (p : RState × L
   | .start h => (p.1.push (spanOpen cfg h), p.2 ++ [h])
   | .stop => (p.1.push spanClose, p.2.dropLast)
   | .source s e => (addText dec cfg p.2 p.1 (sliceT src s e), p.2)
-
-/-- `if let Some(offset) = self.last_carriage_return.take() { self.add_carriage_return(offset, ..) }` -/
-def finishCR (cfg : RCfg) (st : RState) : RState :=
-  match st.lastCR with
-  | some off => addCR cfg { st with lastCR := none } off
-  | none => st
 
 /-- `if self.html.last() != Some(&b'\n') { self.html.push(b'\n') }` -/
 def finishNewline (st : RState) : RState :=
